@@ -198,7 +198,11 @@ def bad_values(draw, t):
             opts.append(("a\U0001F600b", "multi-unit"))
         return draw(st.sampled_from(opts))
     if k == "nbytes":
-        return draw(st.sampled_from([(None, "none"), (5, "int")]))
+        n = t["n"]
+        opts = [(None, "none"), (5, "int"), ("ab" * max(n, 1), "str"), ([1] * max(n, 1), "list")]
+        if n >= 1:
+            opts.append(({"__container__": "bytes", "items": [7] * draw(st.integers(0, n - 1))}, "too-few"))   # fewer bytes than the fixed width
+        return draw(st.sampled_from(opts))
     if k == "ip":
         return draw(st.sampled_from([("256.1.1.1", "range"), ("1.2.3", "short"), ("a.b.c.d", "letters"), (None, "none"),
                                      ("1.2.3.4.5", "long"), ("", "empty")]))
